@@ -993,6 +993,15 @@ mod imp {
 
             Ok(delims)
         }
+
+        fn validate_end_delims(&self) -> Result<(), Error> {
+            for delim in [&self.variable_end, &self.block_end, &self.comment_end] {
+                if delim.is_empty() {
+                    return Err(ErrorKind::InvalidDelimiter.into());
+                }
+            }
+            Ok(())
+        }
     }
 
     /// Builder helper to reconfigure the syntax.
@@ -1073,6 +1082,7 @@ mod imp {
             if *delims == DEFAULT_DELIMS {
                 return Ok(SyntaxConfig::default());
             }
+            ok!(delims.validate_end_delims());
             let aho_corasick = ok!(AhoCorasick::builder()
                 .build(ok!(delims.validated_start_delims()))
                 .map_err(|_| ErrorKind::InvalidDelimiter.into()));
